@@ -132,8 +132,11 @@ def p_C02(tier, seed):
 
 
 def p_C03(tier, seed):
-    n, mp = scope(tier, (3, 2), (5, 2))
+    n, mp = scope(tier, (3, 2), (4, 2))
     f = engines.engine_A("C03", ["pq", "dpq"], n, mp, light, ["contents"])
+    if tier == "thorough":
+        # every arrangement of 5 items x 3 priorities, 60 seeded probes from each
+        f.merge(engines.engine_A("C03", ["pq", "dpq"], 5, 2, light, ["contents"], probe_sample=60, seed=seed, wd_name="C03w"))
     f.merge(engines.engine_A("C03", ["pq", "dpq"], n, mp, lambda p: False, ["contents"], extra_probes=append_probes,
                              wd_name="C03a", max_states=scope(tier, 40, None)))
     nh, nk, no = scope(tier, (8, [8, 20], 300), (32, [8, 20, 50], 1500))
@@ -142,7 +145,7 @@ def p_C03(tier, seed):
 
 
 def p_C04(tier, seed):
-    n, mp = scope(tier, (3, 2), (5, 2))
+    n, mp = scope(tier, (3, 2), (4, 2))
 
     def extra(kind, keys, maxp):
         # leaked iter_mut guards (order unspecified afterwards) followed by further operations
@@ -229,7 +232,7 @@ def p_C11(tier, seed):
 
 
 def p_C12(tier, seed):
-    n, mp = scope(tier, (3, 2), (5, 2))
+    n, mp = scope(tier, (3, 2), (4, 2))
 
     def extra(kind, keys, maxp):
         out = []
@@ -277,7 +280,7 @@ def p_C05(tier, seed):
 
 # ------------------------------------------------------------------ C06 sorted consumption
 def p_C06(tier, seed):
-    n, mp = scope(tier, (4, 2), (5, 2))
+    n, mp = scope(tier, (4, 2), (5, 1))
 
     def extra(kind, keys, maxp):
         m = len(keys)
